@@ -367,90 +367,77 @@ func parseExpr(ctx *Context, e ast.Expr) *pattern {
 // MatchIdentical returns true if the go typ matches pattern p.
 func (p *Pattern) MatchIdentical(state *MatcherState, typ types.Type) bool {
 	state.reset()
-	return p.matchIdentical(state, p.root, typ)
+	return p.matchIdentical(state, p.root, typ, matchDone)
 }
 
-func (p *Pattern) matchIdenticalFielder(state *MatcherState, subs []*pattern, f fielder) bool {
-	// TODO: do backtracking.
+// matchCont is the rest of a match: it is called after a sub-pattern has matched
+// and reports whether everything that follows matches under the current bindings.
+// When it fails, the bindings made by that sub-pattern are undone and the next
+// alternative (a different $*_ run) is tried.
+type matchCont func() bool
 
-	numFields := f.NumFields()
-	fieldsMatched := 0
+func matchDone() bool { return true }
 
-	if len(subs) == 0 && numFields != 0 {
+// matchIdenticalFielder matches the fields f[from:] against subs, then runs k.
+// A $*_ pattern stands for any run of fields; runs are tried shortest first.
+func (p *Pattern) matchIdenticalFielder(state *MatcherState, subs []*pattern, f fielder, from int, k matchCont) bool {
+	if len(subs) == 0 {
+		return from == f.NumFields() && k()
+	}
+	pat := subs[0]
+	if pat.op == opVarSeq {
+		for next := from; next <= f.NumFields(); next++ {
+			if p.matchIdenticalFielder(state, subs[1:], f, next, k) {
+				return true
+			}
+		}
 		return false
 	}
-
-	matchAny := false
-
-	i := 0
-	for i < len(subs) {
-		pat := subs[i]
-
-		if pat.op == opVarSeq {
-			matchAny = true
-		}
-
-		fieldsLeft := numFields - fieldsMatched
-		if matchAny {
-			switch {
-			// "Nothing left to match" stop condition.
-			case fieldsLeft == 0:
-				matchAny = false
-				i++
-			// Lookahead for non-greedy matching.
-			case i+1 < len(subs) && p.matchIdentical(state, subs[i+1], f.Field(fieldsMatched).Type()):
-				matchAny = false
-				i += 2
-				fieldsMatched++
-			default:
-				fieldsMatched++
-			}
-			continue
-		}
-
-		if fieldsLeft == 0 || !p.matchIdentical(state, pat, f.Field(fieldsMatched).Type()) {
-			return false
-		}
-		i++
-		fieldsMatched++
+	if from == f.NumFields() {
+		return false
 	}
-
-	return numFields == fieldsMatched
+	return p.matchIdentical(state, pat, f.Field(from).Type(), func() bool {
+		return p.matchIdenticalFielder(state, subs[1:], f, from+1, k)
+	})
 }
 
-func (p *Pattern) matchIdentical(state *MatcherState, sub *pattern, typ types.Type) bool {
+func (p *Pattern) matchIdentical(state *MatcherState, sub *pattern, typ types.Type, k matchCont) bool {
 	switch sub.op {
 	case opVar:
 		name := sub.value.(string)
 		if name == "_" {
-			return true
+			return k()
 		}
 		y, ok := state.typeMatches[name]
 		if !ok {
 			state.typeMatches[name] = typ
-			return true
+			if k() {
+				return true
+			}
+			delete(state.typeMatches, name)
+			return false
 		}
 		if y == nil {
-			return typ == nil
+			return typ == nil && k()
 		}
-		return xtypes.Identical(typ, y)
+		return xtypes.Identical(typ, y) && k()
 
 	case opBuiltinType:
-		return xtypes.Identical(typ, sub.value.(types.Type))
+		return xtypes.Identical(typ, sub.value.(types.Type)) && k()
 
 	case opPointer:
 		typ, ok := typ.(*types.Pointer)
 		if !ok {
 			return false
 		}
-		return p.matchIdentical(state, sub.subs[0], typ.Elem())
+		return p.matchIdentical(state, sub.subs[0], typ.Elem(), k)
 
 	case opSlice:
 		typ, ok := typ.(*types.Slice)
 		if !ok {
 			return false
 		}
-		return p.matchIdentical(state, sub.subs[0], typ.Elem())
+		return p.matchIdentical(state, sub.subs[0], typ.Elem(), k)
 
 	case opArray:
 		typ, ok := typ.(*types.Array)
@@ -469,20 +456,25 @@ func (p *Pattern) matchIdentical(state *MatcherState, sub *pattern, typ types.Ty
 				wantLen = length
 			} else {
 				state.int64Matches[v] = typ.Len()
-				wantLen = typ.Len()
+				if p.matchIdentical(state, sub.subs[0], typ.Elem(), k) {
+					return true
+				}
+				delete(state.int64Matches, v)
+				return false
 			}
 		case int64:
 			wantLen = v
 		}
-		return wantLen == typ.Len() && p.matchIdentical(state, sub.subs[0], typ.Elem())
+		return wantLen == typ.Len() && p.matchIdentical(state, sub.subs[0], typ.Elem(), k)
 
 	case opMap:
 		typ, ok := typ.(*types.Map)
 		if !ok {
 			return false
 		}
-		return p.matchIdentical(state, sub.subs[0], typ.Key()) &&
-			p.matchIdentical(state, sub.subs[1], typ.Elem())
+		return p.matchIdentical(state, sub.subs[0], typ.Key(), func() bool {
+			return p.matchIdentical(state, sub.subs[1], typ.Elem(), k)
+		})
 
 	case opChan:
 		typ, ok := typ.(*types.Chan)
@@ -490,7 +482,7 @@ func (p *Pattern) matchIdentical(state *MatcherState, sub *pattern, typ types.Ty
 			return false
 		}
 		dir := sub.value.(types.ChanDir)
-		return dir == typ.Dir() && p.matchIdentical(state, sub.subs[0], typ.Elem())
+		return dir == typ.Dir() && p.matchIdentical(state, sub.subs[0], typ.Elem(), k)
 
 	case opNamed:
 		typ, ok := typ.(*types.Named)
@@ -514,9 +506,9 @@ func (p *Pattern) matchIdentical(state *MatcherState, sub *pattern, typ types.Ty
 		if vendorPos := strings.Index(objPath, "/vendor/"); vendorPos != -1 {
 			objPath = objPath[vendorPos+len("/vendor/"):]
 		}
-		return objPath == pkgPath
+		return objPath == pkgPath && k()
 
-	case opFuncNoSeq:
+	case opFuncNoSeq, opFunc:
 		typ, ok := typ.(*types.Signature)
 		if !ok {
 			return false
@@ -524,70 +516,20 @@ func (p *Pattern) matchIdentical(state *MatcherState, sub *pattern, typ types.Ty
 		numParams := sub.value.(int)
 		params := sub.subs[:numParams]
 		results := sub.subs[numParams:]
-		if typ.Params().Len() != len(params) {
-			return false
-		}
-		if typ.Results().Len() != len(results) {
-			return false
-		}
-		for i := 0; i < typ.Params().Len(); i++ {
-			if !p.matchIdentical(state, params[i], typ.Params().At(i).Type()) {
-				return false
-			}
-		}
-		for i := 0; i < typ.Results().Len(); i++ {
-			if !p.matchIdentical(state, results[i], typ.Results().At(i).Type()) {
-				return false
-			}
-		}
-		return true
+		return p.matchIdenticalFielder(state, params, &tupleFielder{x: typ.Params()}, 0, func() bool {
+			return p.matchIdenticalFielder(state, results, &tupleFielder{x: typ.Results()}, 0, k)
+		})
 
-	case opFunc:
-		typ, ok := typ.(*types.Signature)
-		if !ok {
-			return false
-		}
-		numParams := sub.value.(int)
-		params := sub.subs[:numParams]
-		results := sub.subs[numParams:]
-		adapter := tupleFielder{x: typ.Params()}
-		if !p.matchIdenticalFielder(state, params, &adapter) {
-			return false
-		}
-		adapter.x = typ.Results()
-		if !p.matchIdenticalFielder(state, results, &adapter) {
-			return false
-		}
-		return true
-
-	case opStructNoSeq:
+	case opStructNoSeq, opStruct:
 		typ, ok := typ.(*types.Struct)
 		if !ok {
 			return false
 		}
-		if typ.NumFields() != len(sub.subs) {
-			return false
-		}
-		for i, member := range sub.subs {
-			if !p.matchIdentical(state, member, typ.Field(i).Type()) {
-				return false
-			}
-		}
-		return true
-
-	case opStruct:
-		typ, ok := typ.(*types.Struct)
-		if !ok {
-			return false
-		}
-		if !p.matchIdenticalFielder(state, sub.subs, typ) {
-			return false
-		}
-		return true
+		return p.matchIdenticalFielder(state, sub.subs, typ, 0, k)
 
 	case opAnyInterface:
 		_, ok := typ.(*types.Interface)
-		return ok
+		return ok && k()
 
 	default:
 		return false
